@@ -191,7 +191,7 @@ def spec_table():
 def gates(tier):
     return {'constructions': 3000, 'in_domain_accepted': 500, 'out_of_domain_rejected': 1200, 'defaults_checked': 300,
             'unknown_key_cases': 30, 'cross_rule_cases': 40, 'answers_format_cases': 30, 'reconstruction_cases': 300,
-            'kwargs_dict_equivalence_cases': 300, 'classes_covered': 30, 'multi_option_cases': 500, 'defaults_beside_registrations': 15}
+            'kwargs_dict_equivalence_cases': 300, 'classes_covered': 30, 'multi_option_cases': 500, 'defaults_beside_registrations': 15, 'registered_precedence_cases': 20}
 
 
 def is_validation_error(exc):
@@ -681,10 +681,46 @@ def run_defaults_beside_registrations(ctx):
             ocls.clear_registered_defaults()
 
 
+def run_registered_precedence(ctx):
+    """Defaults registered on several levels of one class chain: the most derived class's value is the default of its instances, the
+    others fill in what it did not register (plugins/defaults_sample.py), in whatever order the registrations were made."""
+    import mitxgraders as M
+    from mitxgraders.baseclasses import AbstractGrader, ItemGrader
+    rng = ctx.rng
+    chains = [(M.NumericalGrader, M.FormulaGrader, {'answers': '1'}), (M.MatrixGrader, M.FormulaGrader, {'answers': '[1,2]'}), (M.StringGrader, ItemGrader, {'answers': 'cat'}),
+              (M.StringGrader, AbstractGrader, {'answers': 'cat'}), (M.FormulaGrader, ItemGrader, {'answers': 'x', 'variables': ['x']}), (M.IntervalGrader, M.SingleListGrader, {'answers': '[1,2]'})]
+    for rep in range(ctx.pick(10, 60)):
+        sub, sup, cfg = rng.choice(chains)
+        regs = [(sup, {'wrong_msg': 'SUP', 'debug': True}), (sub, {'wrong_msg': 'SUB'})]
+        rng.shuffle(regs)
+        try:
+            for cls, d in regs:
+                cls.register_defaults(d)
+            ctx.count('registered_precedence_cases')
+            wit = {'class': sub.__name__, 'superclass': sup.__name__, 'registration_order': [c.__name__ for c, _ in regs]}
+            try:
+                obj = sub(**cfg)
+            except Exception as exc:  # noqa
+                ctx.violation('C20:%s:registered_precedence:construction_fails' % sub.__name__, repr(exc)[:200], wit)
+                continue
+            ctx.ev()
+            ctx.count('constructions')
+            if obj.config['wrong_msg'] != 'SUB' or obj.config['debug'] is not True:
+                ctx.violation('C20:registered_precedence:' + ('superclass_wins' if obj.config['wrong_msg'] == 'SUP' else 'lost'),
+                              '%s: wrong_msg=%r debug=%r; registered for it: SUB, inherited: debug=True' % (sub.__name__, obj.config['wrong_msg'], obj.config['debug']), wit)
+            explicit = sub(wrong_msg='MINE', **cfg)
+            if explicit.config['wrong_msg'] != 'MINE':
+                ctx.violation('C20:registered_precedence:explicit_option_overridden', repr(explicit.config['wrong_msg']), wit)
+        finally:
+            for cls, _ in regs:
+                cls.clear_registered_defaults()
+
+
 def run(ctx):
     run_tables(ctx)
     if ctx.shard % 4 == 0:
         run_defaults_beside_registrations(ctx)
+        run_registered_precedence(ctx)
         run_cross_rules(ctx)
         run_answers(ctx)
     if ctx.shard == 0:
